@@ -7,7 +7,7 @@ use proptest::test_runner::{Config, RngAlgorithm, TestCaseError, TestError, Test
 use serde::{de::DeserializeOwned, Serialize};
 use serde_json::{json, Value};
 use std::cell::RefCell;
-use std::collections::{BTreeMap, HashSet};
+use std::collections::{BTreeSet, BTreeMap, HashSet};
 use std::hash::{Hash, Hasher};
 use std::panic::{self, AssertUnwindSafe};
 use std::path::PathBuf;
@@ -122,6 +122,9 @@ pub struct Found {
   /// build profile of the child process that found it ("plain"), if not the main one
   #[serde(default)]
   pub profile: Option<String>,
+  /// value every otherwise unset environment variable had in the child process that found it
+  #[serde(default)]
+  pub env_value: Option<String>,
 }
 
 #[derive(Default)]
@@ -256,7 +259,7 @@ impl Ctx {
           rep.evaluations += 1;
           rep.nontrivial.insert(hash_of(&f.display().to_string()));
           if !rep.found.iter().any(|x| x.sig == sig) {
-            rep.found.push(Found { sub: sub_name.to_string(), sig, detail: format!("[saved case {}] {}", f.file_name().and_then(|n| n.to_str()).unwrap_or("?"), detail), case: v["case"].clone(), shrunk: true, clock: None, profile: None });
+            rep.found.push(Found { sub: sub_name.to_string(), sig, detail: format!("[saved case {}] {}", f.file_name().and_then(|n| n.to_str()).unwrap_or("?"), detail), case: v["case"].clone(), shrunk: true, clock: None, profile: None, env_value: None });
           }
         }
         Ok(_) => {
@@ -299,9 +302,12 @@ impl Ctx {
     };
     let t0 = Instant::now();
     let mut per_clock = serde_json::Map::new();
-    for (label, secs, nanos) in instants {
+    for (i, (label, secs, nanos)) in instants.iter().enumerate() {
       let clock = format!("{}.{:09}", secs, nanos);
+      // the children also live in other time zones (POSIX TZ strings, no tz database needed): UTC+14, UTC-12, UTC+5:45
+      let tz = ["UTC0", "AAA-14", "BBB12", "CCC-5:45"][i % 4];
       let out = std::process::Command::new(&exe)
+        .env("TZ", tz)
         .args([self.property, if self.quick() { "quick" } else { "thorough" }])
         .env("LD_PRELOAD", &lib)
         .env("PV_CLOCK_SET", &clock)
@@ -343,6 +349,7 @@ impl Ctx {
             shrunk: f["shrunk"].as_bool().unwrap_or(false),
             clock: Some(clock.clone()),
             profile: None,
+            env_value: None,
           });
         }
       }
@@ -351,7 +358,7 @@ impl Ctx {
           rep.samples.push(json!({"clock": clock, "label": label, "case": s}));
         }
       }
-      per_clock.insert(label.to_string(), json!({"set_to": clock, "evaluations": n, "distinct_nontrivial": nt}));
+      per_clock.insert(label.to_string(), json!({"set_to": clock, "TZ": tz, "evaluations": n, "distinct_nontrivial": nt}));
     }
     rep.extra.insert("clocks".into(), Value::Object(per_clock));
     rep.wall_s = t0.elapsed().as_secs_f64();
@@ -370,6 +377,79 @@ impl Ctx {
   /// true in any child process of a check (set clock / other build profile): reduced job set, results handed to the parent
   pub fn is_child(&self) -> bool {
     self.is_clock_child()
+  }
+
+  /// The process environment as an input: re-runs the reduced job set in child processes in which every environment
+  /// variable that is not really set (and not on the shim's pass-through list of system / toolchain names) exists and has
+  /// the given value (LD_PRELOAD shim tools/envfuzz.c intercepting getenv). The names the child asked for are recorded.
+  pub fn env_children(&self) {
+    if self.is_child() {
+      return;
+    }
+    let lib = std::env::var("PV_ENVFUZZ").map(PathBuf::from).unwrap_or_else(|_| verif_dir().join(".work").join("libenvfuzz.so"));
+    let mut rep = SubReport { name: format!("{}/under-an-arbitrary-environment", self.property), exhaustive: Some(false), ..Default::default() };
+    let exe = match std::env::current_exe() {
+      Ok(e) if lib.exists() => e,
+      _ => {
+        rep.extra.insert("skipped".into(), json!("environment shim not built"));
+        self.reports.lock().unwrap().push(rep);
+        return;
+      }
+    };
+    let values: &[&str] = if self.quick() { &["300", "2001-02-03T04:05:06Z"] } else { &["300", "2001-02-03T04:05:06Z", "1", "x", "", "86400", "-1", "true"] };
+    let t0 = Instant::now();
+    let mut names: BTreeSet<String> = BTreeSet::new();
+    for (i, value) in values.iter().enumerate() {
+      let log = verif_dir().join(".work").join(format!("envlog-{}-{}-{}.txt", self.property, std::process::id(), i));
+      let _ = std::fs::remove_file(&log);
+      let out = std::process::Command::new(&exe)
+        .args([self.property, if self.quick() { "quick" } else { "thorough" }])
+        .env("LD_PRELOAD", &lib)
+        .env("PV_ENV_VALUE", value)
+        .env("PV_ENV_LOG", &log)
+        .env("PV_CHILD", "1")
+        .env("VERIF_SEED", self.seed.to_string())
+        .env("PV_VERIF", verif_dir())
+        .output();
+      if let Ok(text) = std::fs::read_to_string(&log) {
+        names.extend(text.lines().map(|l| l.to_string()));
+      }
+      let _ = std::fs::remove_file(&log);
+      let parsed: Option<Value> = out.as_ref().ok().and_then(|o| {
+        let text = String::from_utf8_lossy(&o.stdout).to_string();
+        text.lines().rev().find(|l| l.starts_with("PVCHILD ")).and_then(|l| serde_json::from_str(&l[8..]).ok())
+      });
+      match parsed {
+        None => {
+          rep.extra.insert("aborted".into(), json!(format!("the child with every unset variable = {:?} produced no report", value)));
+        }
+        Some(v) => {
+          let n = v["evaluations"].as_u64().unwrap_or(0);
+          rep.evaluations += n;
+          for k in 0..v["distinct_nontrivial"].as_u64().unwrap_or(0) {
+            rep.nontrivial.insert(hash_of(&("env", i, k)));
+          }
+          *rep.classes.entry(format!("environment: every unset variable = {:?}", value)).or_insert(0) += n;
+          if let Some(found) = v["found"].as_array() {
+            for f in found {
+              rep.found.push(Found {
+                sub: f["sub"].as_str().unwrap_or("").to_string(),
+                sig: f["sig"].as_str().unwrap_or("").to_string(),
+                detail: format!("[every environment variable that is not set reads as {:?}; names asked for: {:?}] {}", value, names, f["detail"].as_str().unwrap_or("")),
+                case: f["case"].clone(),
+                shrunk: f["shrunk"].as_bool().unwrap_or(false),
+                clock: None,
+                profile: None,
+                env_value: Some(value.to_string()),
+              });
+            }
+          }
+        }
+      }
+    }
+    rep.extra.insert("environment_names_asked_for".into(), json!(names));
+    rep.wall_s = t0.elapsed().as_secs_f64();
+    self.reports.lock().unwrap().push(rep);
   }
 
   /// Re-runs this property's reduced job set with the harness AND the library built the way `cargo build --release`
@@ -420,6 +500,7 @@ impl Ctx {
               shrunk: f["shrunk"].as_bool().unwrap_or(false),
               clock: None,
               profile: Some("plain".into()),
+              env_value: None,
             });
           }
         }
@@ -523,7 +604,7 @@ impl Ctx {
           Verdict::Violation { detail, .. } => detail,
           _ => "(violation did not reproduce on the shrunk case)".to_string(),
         };
-        rep.found.push(Found { sub: name.clone(), sig, detail, case: serde_json::to_value(&minimal).unwrap_or(Value::Null), shrunk: true, clock: None, profile: None });
+        rep.found.push(Found { sub: name.clone(), sig, detail, case: serde_json::to_value(&minimal).unwrap_or(Value::Null), shrunk: true, clock: None, profile: None, env_value: None });
       }
       Err(TestError::Abort(reason)) => {
         rep.extra.insert("aborted".into(), Value::String(reason.to_string()));
@@ -554,7 +635,7 @@ impl Ctx {
           if self.known.contains(&sig) {
             *rep.known_hits.entry(sig).or_insert(0) += 1;
           } else if seen_sigs.insert(sig.clone()) && rep.found.len() < 20 {
-            rep.found.push(Found { sub: name.clone(), sig, detail, case: serde_json::to_value(&case).unwrap_or(Value::Null), shrunk: false, clock: None, profile: None });
+            rep.found.push(Found { sub: name.clone(), sig, detail, case: serde_json::to_value(&case).unwrap_or(Value::Null), shrunk: false, clock: None, profile: None, env_value: None });
           }
         }
       }
@@ -607,7 +688,7 @@ impl Ctx {
         if self.known.contains(&sig) {
           *rep.known_hits.entry(sig).or_insert(0) += 1;
         } else if seen.insert(sig.clone()) {
-          rep.found.push(Found { sub: sub.name(), sig, detail, case: serde_json::to_value(&case).unwrap_or(Value::Null), shrunk: false, clock: None, profile: None });
+          rep.found.push(Found { sub: sub.name(), sig, detail, case: serde_json::to_value(&case).unwrap_or(Value::Null), shrunk: false, clock: None, profile: None, env_value: None });
         }
       }
     }
@@ -789,6 +870,9 @@ pub fn finish(ctx: Ctx, meta: EvidenceMeta) -> Outcome {
     if let Some(p) = &f.profile {
       body["profile"] = json!(p);
     }
+    if let Some(e) = &f.env_value {
+      body["env_value"] = json!(e);
+    }
     let _ = std::fs::write(&path, serde_json::to_string_pretty(&body).unwrap());
     let mut d = f.detail.clone();
     if d.len() > 700 {
@@ -874,6 +958,17 @@ pub fn replay(property: &str, subs: Vec<Box<dyn DynSub>>, file: &str) -> i32 {
       return 2;
     }
   };
+  if let (Some(value), Err(_)) = (v["env_value"].as_str(), std::env::var("PV_ENV_VALUE")) {
+    // found in a child whose unset environment variables all read as `value`: replay it there
+    let lib = std::env::var("PV_ENVFUZZ").map(PathBuf::from).unwrap_or_else(|_| verif_dir().join(".work").join("libenvfuzz.so"));
+    if lib.exists() {
+      if let Ok(exe) = std::env::current_exe() {
+        let st = std::process::Command::new(exe).args([property, "--replay", file]).env("LD_PRELOAD", &lib).env("PV_ENV_VALUE", value).status();
+        return st.ok().and_then(|s| s.code()).unwrap_or(2);
+      }
+    }
+    println!("replay: the environment shim is not available; replaying in the real environment");
+  }
   if let (Some("plain"), Err(_)) = (v["profile"].as_str(), std::env::var("PV_CHILD")) {
     // found by the binary built without debug assertions: replay it there
     let exe = std::env::var("PV_PLAIN").map(PathBuf::from).unwrap_or_else(|_| std::env::current_exe().ok().and_then(|e| e.parent().and_then(|p| p.parent()).map(|p| p.join("plain").join("pv"))).unwrap_or_default());
